@@ -52,6 +52,7 @@ ImplLookupCoord(f, s, c) == LET a == IF s = 1 THEN SwapC(c) ELSE c IN IF f = 1 T
 ImplStreamBox(f, s, d, z) == LET a == IF s = 1 THEN DSwapXY(d) ELSE d IN IF f = 1 THEN DFlipY(a, z) ELSE a
 ImplStreamCoord(f, s, c) == T(f, s, c)
 ASSUME ThmTinv
+ASSUME ThmCliExpected
 ASSUME \A f \in {0, 1}, s \in {0, 1}, z \in 0..2 : \A x \in 0..MaxIdx(z), y \in 0..MaxIdx(z) :
           ImplLookupCoord(f, s, <<z, x, y>>) = Tinv(f, s, <<z, x, y>>)
 ASSUME \A f \in {0, 1}, s \in {0, 1}, z \in 0..2 :
